@@ -77,7 +77,7 @@ def early_plain_shape(stmts):
 def check_program(item):
     stmts, label, want_c, cap, levels = item["ast"], item["label"], item["want_c"], item["cap"], item["levels"]
     src = U.source(stmts)
-    argv0 = U.needs_flags(stmts)
+    argv0 = U.needs_flags(stmts) + [x for x in item.get("extra", []) if x not in U.needs_flags(stmts)]
     res = dict(label=label, src=src, status="ok", states=0, trans=0, creplay=0, problems=[], shapes=set(), spins=0, amb=0, div=0, ub=0, capped=0)
     first = True
     for lv in levels:
@@ -140,7 +140,8 @@ def items_for(tier, seed):
         cmod = 11
         cap = 6000
     for i, p in gen:
-        items.append(dict(ast=p, label="U#%d" % i, want_c=(i % cmod == seed % cmod), cap=cap, levels=lvls))
+        lv = lvls if tier != "quick" else ([[], ["-O3"]] if i % 4 == seed % 4 else ([[], ["-O0"]] if i % 4 == (seed + 1) % 4 else [[]]))
+        items.append(dict(ast=p, label="U#%d" % i, want_c=(i % cmod == seed % cmod), cap=cap, levels=lv))
     return items
 
 
